@@ -163,7 +163,18 @@ fn run_desc(run: &RunDesc, tag: &str) -> Outcome {
     o
 }
 
+thread_local! {
+    /// wall-clock budget of the minimisation in progress
+    static SHRINK_DEADLINE: std::cell::Cell<Option<Instant>> = const { std::cell::Cell::new(None) };
+}
+
 fn still_fails(run: &RunDesc, class: &str, tries: &mut u32) -> bool {
+    if let Some(d) = SHRINK_DEADLINE.with(|c| c.get()) {
+        if Instant::now() > d {
+            *tries = u32::MAX / 2; // out of time: every loop of the minimiser stops
+            return false;
+        }
+    }
     *tries += 1;
     let o = run_desc(run, &format!("shrink-{}", tries));
     violations_of(&o).iter().any(|(c, _)| c == class)
@@ -403,7 +414,20 @@ fn check(tier: &str) -> i32 {
     eprintln!("[c20] seed={} tier={} workers={} runs={}", seed, tier, threads, total);
 
     let stop = Arc::new(AtomicBool::new(false));
-    let results = simcommon::par::run_indexed(threads, 0, total, 1 << 20, stop.clone(), move |_w, idx| run_child(RunSel::Index(seed, idx, thorough)));
+    // enough is enough: once a few dozen runs have failed the verdict will not
+    // change, and failing runs can be slow (wall-clock patience for lost answers)
+    let failed_runs = Arc::new(std::sync::atomic::AtomicU64::new(0));
+    let (stop2, failed2) = (stop.clone(), failed_runs.clone());
+    let results = simcommon::par::run_indexed(threads, 0, total, 1 << 20, stop.clone(), move |_w, idx| {
+        let o = run_child(RunSel::Index(seed, idx, thorough));
+        if !violations_of(&o).is_empty() && failed2.fetch_add(1, std::sync::atomic::Ordering::SeqCst) >= 40 {
+            stop2.store(true, std::sync::atomic::Ordering::SeqCst);
+        }
+        o
+    });
+    let stopped_early = stop.load(std::sync::atomic::Ordering::SeqCst);
+    stop.store(false, std::sync::atomic::Ordering::SeqCst);
+    let total = results.len() as u64;
 
     // determinism self-test with another worker count
     let again = simcommon::par::run_indexed(3.min(threads), 0, selftest_n.min(total), 1 << 20, stop, move |_w, idx| run_child(RunSel::Index(seed, idx, thorough)));
@@ -414,9 +438,12 @@ fn check(tier: &str) -> i32 {
         }
     };
     let mut mism = vec![];
+    let by_idx: BTreeMap<u64, &Outcome> = results.iter().map(|(i, o)| (*i, o)).collect();
     for (i, o2) in &again {
-        if fingerprint(&results[*i as usize].1) != fingerprint(o2) {
-            mism.push(*i);
+        if let Some(o1) = by_idx.get(i) {
+            if fingerprint(o1) != fingerprint(o2) {
+                mism.push(*i);
+            }
         }
     }
     // A mismatch means the system under test is not under the simulator's full
@@ -487,7 +514,9 @@ fn check(tier: &str) -> i32 {
             eprintln!("[c20] {} at run {} did not reproduce from its explicit description", class, idx);
             continue;
         }
+        SHRINK_DEADLINE.with(|c| c.set(Some(Instant::now() + Duration::from_secs(90))));
         let small = minimise(&run, class);
+        SHRINK_DEADLINE.with(|c| c.set(None));
         let o = run_desc(&small, "final");
         let (fr, fo) = if violations_of(&o).iter().any(|(c, _)| c == class) { (small, o) } else { let o = run_desc(&run, "orig"); (run, o) };
         let d2 = violations_of(&fo).into_iter().find(|(c, _)| c == class).map(|x| x.1).unwrap_or(detail.clone());
@@ -521,6 +550,7 @@ fn check(tier: &str) -> i32 {
         .collect();
     let mut ev = Evidence::new(PROPERTY, tier, seed, "exploration");
     ev.cov("evaluations", json!(total));
+    ev.cov("stopped_early_after_many_failing_runs", json!(stopped_early));
     ev.cov("distinct_nontrivial", json!(nontrivial.len()));
     ev.cov("rule", json!("one evaluation = one simulated run in a fresh process: the real svgbob_server main() -> axum Router -> hyper HTTP/1 -> tokio current-thread scheduler on an in-memory listener/transport; 1-16 scripted client connections (1-4 keep-alive/pipelined requests each), an explicit seeded schedule of open/deliver-n-bytes/drain-n-bytes/half-close/close/reset/probe actions, run to quiescence after every action. Distinct = distinct abstract action sequences (action kind x connection); non-trivial = at least two connections or at least one client fault."));
     ev.cov("samples", json!(samples));
